@@ -22,5 +22,9 @@
              'parser_settings.encoding; long inputs with a pure-ASCII head of k*4096(+0..8) bytes and the '
              'first byte >= 0x80 only later (up to the last byte); two transforms of one encoding alive at '
              'the same time (same Schema / two Schemas, random switch points) must each give their solo '
-             'transcript'],
+             'transcript',
+             'round-4 class: records spanning several lines (fixedlength2 / csv2: fixed row count, '
+             'header/footer delimited, blank lines in between), inputs of 4..14 KB with bytes >= 0x80 in '
+             'every record, whole and chunked sources: transcript(bytes, X) vs transcript(utf8(bytes), '
+             'utf-8)'],
  'assumptions': []}
